@@ -17,6 +17,7 @@
  *   G id fmt w h ox oy seed                glyph id (image + origin) inserted into the glyph cache
  *   S                                      log the Setup event
  *   composite op sx sy mx my dx dy w h     pixman_image_composite32
+ *   composite16 (same arguments)           pixman_image_composite (the 16-bit entry point; logged as the same request)
  *   region sx sy mx my dx dy w h           pixman_compute_composite_region (16-bit API)
  *   fillboxes|fillrects op r g b a n quads
  *   glyphs op maskfmt sx sy mx my dx dy w h n (id x y)*
@@ -363,11 +364,15 @@ main (int argc, char **argv)
 	{
 	    fc_log_setup (&dst, &cst[0], d_attached ? &dalpha : NULL, d_ox, d_oy, &cst[1], &cst[2], NULL);
 	}
-	else if (!strcmp (cmd, "composite"))
+	else if (!strcmp (cmd, "composite") || !strcmp (cmd, "composite16"))
 	{
 	    int v[8];
 	    if (fscanf (in, "%39s", opn) != 1) return 3;
 	    fc_read_ints (in, v, 8);
+	    if (cmd[9])	/* the 16-bit entry point: the same request (the script only uses it when the values fit) */
+		pixman_image_composite (fc_op (opn), simg[1], simg[2], dst.img, (int16_t)v[0], (int16_t)v[1], (int16_t)v[2],
+					(int16_t)v[3], (int16_t)v[4], (int16_t)v[5], (uint16_t)v[6], (uint16_t)v[7]);
+	    else
 	    pixman_image_composite32 (fc_op (opn), simg[1], simg[2], dst.img, v[0], v[1], v[2], v[3], v[4], v[5], v[6], v[7]);
 	    log_draw ("composite", opn, v, 0, 0, NULL, 0, 1);
 	}
